@@ -1,0 +1,58 @@
+//go:build verif
+
+// Contracts for govc (/verif): C24, part 5: cosiSendAnnouncement: a self announcement either is deferred (its transactions go back to the
+// queue, except those already owned by an active same-round proposal) or installs an aggregator + verifier that own all its transactions.
+// Comment-only file.
+
+package kernel
+
+// ───────────── ASSUMED frames of the helpers used after the duplicate test (networking, nonces, iterator helpers) ─────────────
+// None of them touches the cache queue, the two CoSi maps or the snapshot's transaction list.
+//@ assume func crypto.RandReader
+//@   modifies nothing
+//@ assume func crypto.CosiCommitNonce
+//@   modifies nothing
+//@   ensures result != nil
+//@ assume func (n *crypto.CosiNonce) Public
+//@   modifies nothing
+//@ assume func (chain *Chain) cosiAcceptedNodesListShuffle
+//@   modifies nothing
+//@   ensures forall i int :: 0 <= i && i < len(result) ==> result[i] != nil
+//@ assume func (chain *Chain) cosiPopCommitment
+//@   modifies ghost kernel_graph_state
+//@ assume func (me *p2p.Peer) SendSnapshotAnnouncementMessage
+//@   modifies nothing
+//@ assume func (chain *Chain) AppendCosiAction
+//@   -- for a commitment action: offers it to the action pool and wakes the loop (channel operations); it requeues only SelfEmpty actions
+//@   modifies ghost kernel_graph_state
+
+// Guarded(V, s, tx): an existing verifier of the same round, younger than one round gap, already owns tx (the duplicate test of the code).
+//@ spec Guarded(V map[crypto.Hash]*CosiVerifier, s *common.Snapshot, tx crypto.Hash) bool = has(V, tx) && V[tx] != nil && s.RoundNumber > 0 &&
+//@     V[tx].Snapshot.RoundNumber == s.RoundNumber && s.Timestamp < V[tx].Snapshot.Timestamp + config.SnapshotRoundGap
+// VerifiersOK: every verifier entry has its snapshot, with a UnixNano timestamp
+//@ spec VerifiersOK(chain *Chain) bool = forall k crypto.Hash :: {has(chain.CosiVerifiers, k)} has(chain.CosiVerifiers, k) && chain.CosiVerifiers[k] != nil ==>
+//@     chain.CosiVerifiers[k].Snapshot != nil && chain.CosiVerifiers[k].Snapshot.Timestamp < 9223372036854775808
+
+// cosiSendAnnouncement: on a nil-error return every transaction of the announced snapshot is (a) guarded by an active same-round proposal
+// (then it must NOT be requeued: its owner will), or (b) owned by the verifier installed for THIS snapshot, or (c) no longer eligible, or
+// (d) back in the cache queue (unless the store returned an error).
+//@ func (chain *Chain) cosiSendAnnouncement
+//@   property C24
+//@   trustpre Gap asFinal IsPledging PayloadHash ConsensusThreshold
+//@   requires CosiChainOK(chain) && AggsShape(chain) && VerifiersOK(chain) && !isnil(chain.persistStore)
+//@   requires m != nil && m.Snapshot != nil && m.data != nil && m.data.CN != nil && m.Snapshot.Timestamp < 9223372036854775808
+//@   requires chain.node.Peer != nil
+//@   maypanic
+//@   modifies chain.CosiAggregators, chain.CosiVerifiers, chain.CosiAggregators[..], chain.CosiVerifiers[..], m.Snapshot.RoundNumber, m.Snapshot.References, m.Snapshot.Hash, ghost bytes_cachequeue, ghost store_errors, ghost kernel_graph_state
+//@   ensures [no-loss] err == nil && StoreErrors(chain.node.persistStore) == old(StoreErrors(chain.node.persistStore)) ==>
+//@       (forall i int :: {old(m.Snapshot).Transactions[i]} 0 <= i && i < len(old(m.Snapshot).Transactions) ==>
+//@          Guarded(chain.CosiVerifiers, old(m.Snapshot), old(m.Snapshot).Transactions[i]) ||
+//@          (has(chain.CosiVerifiers, old(m.Snapshot).Transactions[i]) && chain.CosiVerifiers[old(m.Snapshot).Transactions[i]] != nil && chain.CosiVerifiers[old(m.Snapshot).Transactions[i]].Snapshot == old(m.Snapshot)) ||
+//@          !Eligible(chain.node.persistStore, old(m.Snapshot).Transactions[i]) || Queued(chain.node.persistStore, old(m.Snapshot).Transactions[i]))
+//@   loop 0 invariant [bytes-kept] forall p *crypto.Key :: {*p} old(allocated(p)) ==> *p == old(*p)
+//@   loop 0 invariant [retry-fresh] isnil(retry) || fresh(retry)
+//@   loop 0 invariant [split] forall i int :: {s.Transactions[i]} 0 <= i && i <= rangeindex ==> Guarded(chain.CosiVerifiers, s, s.Transactions[i]) || InList32(retry, s.Transactions[i])
+//@   loop 1 invariant [installed] v != nil && v.Snapshot == s && (forall i int :: {s.Transactions[i]} 0 <= i && i <= rangeindex ==> has(chain.CosiVerifiers, s.Transactions[i]) && chain.CosiVerifiers[s.Transactions[i]] == v)
+//@   loop 1 invariant [bytes-kept] forall p *crypto.Key :: {*p} old(allocated(p)) && p != &s.Hash ==> *p == old(*p)
+//@   loop 2 invariant [installed] v != nil && v.Snapshot == s && (forall i int :: {s.Transactions[i]} 0 <= i && i < len(s.Transactions) ==> has(chain.CosiVerifiers, s.Transactions[i]) && chain.CosiVerifiers[s.Transactions[i]] == v)
+//@   loop 2 invariant [bytes-kept] forall p *crypto.Key :: {*p} old(allocated(p)) && p != &s.Hash ==> *p == old(*p)
